@@ -77,7 +77,13 @@ fn mal<T>(s: impl Into<String>) -> Result<T, LoadError> {
 
 pub fn parse_hex_big(s: &str) -> Result<BigUint, LoadError> {
     let t = s.trim();
-    let t = t.strip_prefix("0x").ok_or_else(|| LoadError::Malformed(format!("hex value without 0x: {:.40}", t)))?;
+    let t = match t.strip_prefix("0x") {
+        Some(x) => x,
+        // Stone always writes the prefix. Digits without it are readable as the same number (the parser does
+        // so) but could as well be meant as decimal: neither an error nor a defined value - not judged
+        None if !t.is_empty() && t.bytes().all(|b| b.is_ascii_hexdigit()) => return Err(LoadError::Unspecified(format!("hex value without 0x: {:.40}", t))),
+        None => return mal(format!("bad hex: {:.40}", t)),
+    };
     if t.is_empty() || !t.bytes().all(|b| b.is_ascii_hexdigit()) {
         return mal(format!("bad hex: {:.40}", t));
     }
